@@ -156,9 +156,27 @@ impl Prop for C11 {
     let mut rng = Rng::keyed(case.input["seed"].as_u64().unwrap(), case.input["key"].as_str().unwrap());
     let Some((built, _)) = build(k, &t, &mut rng, case.input["s1"].as_bool().unwrap(), case.input["mutate"].as_str()) else { return Outcome::inconclusive("harness-build", case.id.clone()) };
     let blocks: BTreeMap<String, CVal> = serde_json::from_value(built["blocks"].clone()).unwrap();
-    let src = built["src"].as_str().unwrap();
+    let mut src = built["src"].as_str().unwrap().to_string();
     let mut s = Sess::new();
     for (n, v) in blocks.iter() { s.bind(n, v, false); }
+    // block forms: the kernels treat variables (references) and plain values differently, so in two thirds of the valid cases
+    // each block is written (by a hash of the case id and its position) as a variable, as an inline literal - provided the
+    // literal alone evaluates to exactly the block - or, for matrix blocks, as a slice expression b[:,:]
+    let h = case.id.bytes().fold(0xcbf29ce484222325u64, |h, b| (h ^ b as u64).wrapping_mul(0x100000001b3));
+    let mut forms = String::new();
+    if built["expect"].is_null() || h % 3 == 0 { forms.push_str("all-variables"); } else {
+      for (i, (n, v)) in blocks.iter().enumerate() {
+        let pick = (h >> (3 + 2 * (i % 28))) & 3;
+        let repl = match pick {
+          1 | 2 => lit(v).filter(|l| !l.starts_with('-') && !l.contains(" -")).filter(|l| matches!(s.eval(l), Ev::Ok(ref pv) if pv == v)),
+          3 if v.is_matrix() && v.shape().0 > 1 && v.shape().1 > 1 => Some(format!("{}[:,:]", n)).filter(|e| matches!(s.eval(e), Ev::Ok(ref pv) if pv == v)),
+          _ => None,
+        };
+        forms.push(match (&repl, pick) { (Some(_), 3) => 's', (Some(_), _) => 'l', _ => 'v' });
+        if let Some(r) = repl { src = replace_name(&src, n, &r); }
+      }
+    }
+    let src = src.as_str();
     let res = s.eval(src);
     let arm = s.last_arm();
     let show_blocks = || blocks.iter().map(|(n, v)| format!("{}={}", n, v.show())).collect::<Vec<_>>().join(", ");
@@ -171,7 +189,7 @@ impl Prop for C11 {
     match res {
       Ev::Ok(v) => {
         let ok = v == want || (blocks.len() == 1 && want.elems().len() == 1 && v.elems() == want.elems());
-        if ok { let mut o = if nontrivial { Outcome::held() } else { Outcome::trivial() }; o.tags.push(format!("arm:{}", arm.split_whitespace().next().unwrap_or(""))); return o; }
+        if ok { let mut o = if nontrivial { Outcome::held() } else { Outcome::trivial() }; o.tags.push(format!("arm:{}", arm.split_whitespace().next().unwrap_or(""))); o.tags.push(format!("blockforms:{}", if forms == "all-variables" { "variables" } else if forms.contains('l') || forms.contains('s') { "mixed" } else { "variables" })); return o; }
         let class = if v.shape() != want.shape() { "wrong-shape" } else if v.elem_kind() != want.elem_kind() { "wrong-kind" } else { "wrong-element" };
         Outcome::violated(class, format!("{} with {} -> {} expected {}", src, show_blocks(), v.show(), want.show()))
       }
@@ -179,4 +197,13 @@ impl Prop for C11 {
       _ => unreachable!(),
     }
   }
+}
+
+fn replace_name(text: &str, name: &str, repl: &str) -> String {
+  let chars: Vec<char> = text.chars().collect(); let n: Vec<char> = name.chars().collect(); let mut out = String::new(); let mut i = 0;
+  let word = |c: char| c.is_alphanumeric() || c == '_';
+  while i < chars.len() {
+    if chars[i..].starts_with(&n[..]) && (i == 0 || !word(chars[i - 1])) && (i + n.len() == chars.len() || !word(chars[i + n.len()])) { out.push_str(repl); i += n.len(); } else { out.push(chars[i]); i += 1; }
+  }
+  out
 }
